@@ -10,11 +10,11 @@ translator; (2) every recorded leg of every traced run replayed in the Lean acti
 effect footprints) evaluated on every recorded commit.
 Oracle: `runs.oracle_c09` (the property statement on recorded runs) on every trace; for a wiring whose obligation is broken
 additionally on 3–6 more runs of that configuration (more seeds, more particles, larger leg cap)."""
-from harness import runs, runcommon, actcorr, translate, fpcorr, fpcorr2, sysinvcorr
+from harness import runs, runcommon, actcorr, translate, fpcorr, fpcorr2, fpcorr3, sysinvcorr
 
 ID = "C09"
 NEEDS_GEN = True
-THEOREM_MODULES = ["JF.Props.C09", "JF.Props.Footprints", "JF.Props.Footprints2", "JF.Props.SystemInv", "JF.Props.SystemInv2", "JF.Gen.WiringsSound"]
+THEOREM_MODULES = ["JF.Props.C09", "JF.Props.Footprints", "JF.Props.Footprints2", "JF.Props.SystemInv", "JF.Props.SystemInv2", "JF.Props.Footprints3", "JF.Props.SystemInv3", "JF.Gen.WiringsSound"]
 COMPONENTS = ["act"]
 ASSUMPTIONS = [
     "footprint tables (JF/Model/Wiring.lean: `affects`, `reads`) are hypotheses of the link theorem (`FootprintsSound`); for point-mass "
@@ -51,6 +51,9 @@ def run(ctx, which=WHICH, oracle=None, per_trace=None):
     if which == "C09":
         # coulomb_atoms cell runs that also record the occupancy at every leg (premise of JF.Props.Footprints, harness/fpcorr.py)
         jobs = jobs + runcommon.fix_pools(fpcorr.occupancy_jobs(ctx), ctx.root)
+        # composite objects WITH cell systems (the six shipped wirings + variants with more molecules), occupancies recorded at every
+        # leg: the world of JF.Props.Footprints3 (harness/fpcorr3.py)
+        jobs = jobs + runcommon.fix_pools(fpcorr3.occupancy_jobs3(ctx), ctx.root)
     trs = runs.run_jobs(ctx.root, jobs)
     try:
         tree = translate.Tree(ctx.root)
@@ -113,6 +116,10 @@ def run(ctx, which=WHICH, oracle=None, per_trace=None):
                 fpcorr2.check_trace(ctx, tr, w)     # composite objects without a cell system: the world of JF.Props.Footprints2
             except Exception as e:
                 ctx.disagree("fp2.check-trace", {"ini": meta["ini"], "job": tr.get("job")}, "evaluated", repr(e))
+            try:
+                fpcorr3.check_trace(ctx, tr, w)     # composite objects with cell systems: the world of JF.Props.Footprints3
+            except Exception as e:
+                ctx.disagree("fp3.check-trace", {"ini": meta["ini"], "job": tr.get("job")}, "evaluated", repr(e))
             try:
                 sysinvcorr.check_trace(ctx, tr)     # hypotheses of JF.Props.SystemInv (CandOK, TieFree) measured on the run
             except Exception as e:
